@@ -34,9 +34,14 @@ package history
 //@   ensures[C16.recent-len] len(result) <= (limit > 0 ? limit : 10)
 //@   ensures[C16.recent-distinct] forall a, b int :: 0 <= a && a < b && b < len(result) ==> result[a] != result[b]
 //@   ensures[C16.recent-from-entries] forall a int :: 0 <= a && a < len(result) ==> (exists k int :: 0 <= k && k < len(sh.Entries) && sh.Entries[k].Query == result[a])
+//@   ensures[C16.recent-newest-first] forall a, b, k int :: 0 <= a && a < b && b < len(result) && 0 <= k && k < len(sh.Entries) && sh.Entries[k].Query == result[b] ==> (exists k2 int :: k < k2 && k2 < len(sh.Entries) && sh.Entries[k2].Query == result[a])
+//@   ensures[C16.recent-most-recent] forall k int :: 0 <= k && k < len(sh.Entries) ==> (exists a int :: 0 <= a && a < len(result) && result[a] == sh.Entries[k].Query) || (len(result) == (limit > 0 ? limit : 10) && (forall a int :: 0 <= a && a < len(result) ==> (exists k2 int :: k < k2 && k2 < len(sh.Entries) && sh.Entries[k2].Query == result[a])))
 //@ loop 1
 //@   invariant -1 <= i && i < len(sh.Entries)
 //@   invariant limit >= 1 && len(queries) <= limit && fresh(queries)
+//@   invariant[C16.scanned-seen] forall k int :: i < k && k < len(sh.Entries) ==> (sh.Entries[k].Query in seen) && seen[sh.Entries[k].Query]
+//@   invariant[C16.listed-scanned] forall a int :: 0 <= a && a < len(queries) ==> (exists k int :: i < k && k < len(sh.Entries) && sh.Entries[k].Query == queries[a])
+//@   invariant[C16.newest-first] forall a, b, k int :: 0 <= a && a < b && b < len(queries) && 0 <= k && k < len(sh.Entries) && sh.Entries[k].Query == queries[b] ==> (exists k2 int :: k < k2 && k2 < len(sh.Entries) && sh.Entries[k2].Query == queries[a])
 //@   invariant forall a int :: 0 <= a && a < len(queries) ==> (queries[a] in seen) && seen[queries[a]]
 //@   invariant forall q string :: (q in seen) && seen[q] ==> (exists a int :: 0 <= a && a < len(queries) && queries[a] == q)
 //@   invariant forall a, b int :: 0 <= a && a < b && b < len(queries) ==> queries[a] != queries[b]
